@@ -90,7 +90,10 @@ def verify_target(args):
         ax = eng.base_axioms()
         nfail = 0
         t1 = time.time()
+        flt = getattr(pm, "FAMILY_FILTER", None)
         for ob in eng.obligations:
+            if flt is not None and not any(t in ob.oid for t in flt):
+                continue            # clause of another property proved by that property's own check
             if nfail >= max_fail:
                 out["obligations"].append({"oid": ob.oid, "family": family_of(ob.oid), "kind": ob.kind,
                                            "verdict": "skipped", "info": "after %d failures" % nfail, "secs": 0.0,
